@@ -56,13 +56,19 @@ class UMNDirHandler(DirHandler):
             # If the parent says it's OK, then let's see if it's
             # a link file.  If yes, process it and return false.
             if file[0] == ".":
-                if not self.vfs.isdir(self.selectorbase + "/" + file):
-                    self.linkentries.extend(
-                        self.processLinkFile(self.selectorbase + "/" + file)
-                    )
+                if self.vfs.isfile(self.selectorbase + "/" + file):
+                    try:
+                        self.linkentries.extend(
+                            self.processLinkFile(self.selectorbase + "/" + file)
+                        )
+                    except IOError:
+                        pass  # An unreadable link file is no link file.
                     return False
                 else:
-                    return False  # A "dot dir" -- ignore.
+                    # A "dot dir" -- ignore.  Likewise anything that is not a
+                    # regular file (dangling symlink, FIFO, socket): opening
+                    # it would fail or even block forever.
+                    return False
             return True  # Not a dot file -- return true
         else:
             return False  # Parent returned 0, do the same.
